@@ -433,34 +433,29 @@ def match_enum_coverage(model, rel, m, enum_name=None):
 
 # ---------------------------------------------------------------------------------------
 class Parents:
-    """parent links for every node below root (by id)"""
+    """parent links for every kinded node below root (by id); records without a kind are transparent"""
 
     def __init__(self, root):
         self.p = {}
         self.slot = {}
-        stack = [root]
+        stack = [(root, root if isinstance(root, dict) and "k" in root else None, "")]
         while stack:
-            n = stack.pop()
+            n, owner, slot = stack.pop()
             if isinstance(n, dict):
+                if "k" in n:
+                    if owner is not None and n is not owner:
+                        self.p[id(n)] = owner
+                        self.slot[id(n)] = slot
+                    own, pre = n, ""
+                else:
+                    own, pre = owner, slot + "."
                 for key, v in n.items():
-                    if isinstance(v, dict):
-                        if "k" in v:
-                            self.p[id(v)] = n
-                            self.slot[id(v)] = key
-                        stack.append(v)
-                    elif isinstance(v, list):
-                        for x in v:
-                            if isinstance(x, dict):
-                                if "k" in x:
-                                    self.p[id(x)] = n
-                                    self.slot[id(x)] = key
-                                else:
-                                    # record-like dict (field / arm record): link its children to n
-                                    for kk, vv in x.items():
-                                        if isinstance(vv, dict) and "k" in vv:
-                                            self.p[id(vv)] = n
-                                            self.slot[id(vv)] = key + "." + kk
-                                stack.append(x)
+                    if isinstance(v, (dict, list)):
+                        stack.append((v, own, (pre + key) if pre else key))
+            elif isinstance(n, list):
+                for x in n:
+                    if isinstance(x, (dict, list)):
+                        stack.append((x, owner, slot))
 
     def parent(self, n):
         return self.p.get(id(n))
